@@ -49,6 +49,14 @@ fn main() {
             sink.finish();
             println!("{}", json!({"events": n}));
         }
+        "replay-events" => {
+            // TLC-enumerated cases run through the real code and logged as events for the trace spec
+            let lines = read_lines(&a[3]);
+            let mut sink = Sink::create(&a[4]);
+            let n = vh::arith::replay_events(&a[2], &lines, &mut sink);
+            sink.finish();
+            println!("{}", json!({"events": n}));
+        }
         "drive" => {
             if a.len() < 6 {
                 usage();
